@@ -97,7 +97,8 @@ let () =
     | id :: "U" :: pnum :: hostedl :: keys :: _ ->
       let ks = List.map bytes_of_hex (split_on ',' keys) in
       let st = ns_hosting (n_of_dec pnum) (List.map (fun h -> n_of_int (int_of_string h)) (split_on ',' hostedl)) in
-      Printf.printf "%s\t%s\n" id (match ns_mget_route st (List.map route_key ks) with None -> "rejected" | Some _ -> "served")
+      let owners = String.concat "," (List.map (fun k -> dec_of_n (part_of (route_key k) (n_of_dec pnum))) ks) in
+      Printf.printf "%s\t%s owners=%s\n" id (match ns_mget_route st (List.map route_key ks) with None -> "rejected" | Some _ -> "served") owners
     | id :: "B" :: pnum :: keys :: _ ->
       (* the last key is the only stored one *)
       let ks = List.map bytes_of_hex (split_on ',' keys) in
